@@ -307,6 +307,12 @@ pub fn run(r: &mut Report, _replay: Option<&str>) {
         }
         let cfg = gen::WorldCfg { max_pkgs: if i % 4 == 0 { 8 } else { 5 }, max_customs: if i % 3 == 0 { 3 } else { 2 }, violations: if i % 6 == 0 { 2 } else { 0 }, unknown_criteria: false };
         let w = gen::gen_world(&mut crng, &cfg);
+        if i % 2 == 0 {
+            // the update model sits on the model of the graph build, the search and resolve:
+            // their ties are checked on these worlds too
+            core::check_world(r, &mut d, &w, &format!("random#{i}"));
+            r.evaluations -= 1;
+        }
         let nf = r.failures.len();
         let rng0 = Rng(crng.0);
         check_world(r, &mut d, &mut crng, &w, &format!("random#{i}"));
